@@ -97,6 +97,17 @@ def cases_for(pid, tier, seed):
                         pts.append({nm: rnd.choice(G) for nm in names})
             add(t, pts=pts)
             add(t, pts=[gen.q(1), gen.q(0), gen.q(-2)], mode="number")
+        # every legal variable name is a legal coordinate name (Point(**{...}), bare number, inside larger trees)
+        for nm in ["self", "é", "1x", "class", "_", "whatever", "x1", "Δt", "None", "cls", "kwargs", "point"]:
+            V = J.Var(nm)
+            for t in (V, J.KUn("NthPower", V, 2), J.Add(V, gen.Y), J.Mul(V, J.Var("self")), J.Un("Reciprocal", V)):
+                vs = sorted(J.variables(t))
+                add(t, pts=gen.grid(vs, [gen.q(0), gen.q(3)]) + [{k: gen.q(2) for k in vs[:-1]}])
+                add(t, pts=[gen.q(3), gen.q(0)], mode="number")
+        # sub-expression objects used on their own AFTER larger expressions were built on top of them (shared objects)
+        for t in rnd.sample(trees, 300 if tier == "quick" else 3000):
+            if J.size(t) >= 3:
+                cases.append({"tree": t, "share": True, "mode": "number", "pts": [gen.q(2), gen.q(0)], "subnodes": True})
     if pid == "C17":
         for c in list(cases)[:1500]:
             if c["mode"] == "point" and J.variables(c["tree"]):
@@ -108,6 +119,7 @@ def cases_for(pid, tier, seed):
 def run_impl(cases):
     """execute every case on the real library; returns trace rows"""
     rows = []
+    extra_rows = []
     for i, c in enumerate(cases, 1):
         heap = J.tree_to_heap(c["tree"], share=c["share"])
         row = {"i": i, "h": heap, "mode": c["mode"], "pts": c["pts"]}
@@ -117,6 +129,20 @@ def run_impl(cases):
             row["outs"] = [{"k": "PyError", "t": "ctor_" + type(exc).__name__} for _ in c["pts"]]
             row["svs"] = [{"k": "ill"} for _ in c["pts"]]
             rows.append(row)
+            continue
+        if c.get("subnodes"):
+            # one event per sub-node object: the heap prefix ending at that node, evaluated through the object built for the FULL heap
+            for kk in range(1, len(heap)):
+                sub = J.heap_to_tree(heap, kk)
+                if heap[kk - 1]["op"] == "Constant":
+                    continue
+                svars = sorted(J.variables(sub))
+                r2 = {"i": None, "h": heap[:kk], "mode": "number", "pts": c["pts"], "outs": [], "svs": []}
+                for pnum in c["pts"]:
+                    val = J.v_to_py(pnum)
+                    r2["outs"].append(J.outcome_of(lambda: objs[kk - 1].at(val)))
+                    r2["svs"].append(SV.sv_record(SV.value(sub, {(svars[0] if svars else "whatever"): pnum})) if len(svars) <= 1 else {"k": "ill"})
+                extra_rows.append((r2, {"tree": sub, "share": True, "mode": "number", "pts": c["pts"]}))
             continue
         root = objs[-1]
         outs, svs = [], []
@@ -139,6 +165,12 @@ def run_impl(cases):
                     svs.append({"k": "ill"})
         row["outs"], row["svs"] = outs, svs
         rows.append(row)
+    # sub-node events get their own case entries (appended to `cases` so that rows and cases stay aligned)
+    keep = [c for c in cases if not c.get("subnodes")]
+    cases[:] = keep + [c2 for _, c2 in extra_rows]
+    rows += [r2 for r2, _ in extra_rows]
+    for i, r in enumerate(rows, 1):
+        r["i"] = i
     return rows
 
 
@@ -240,8 +272,20 @@ def run(pid, tier, seed, src_note=None):
     rep.assumptions = ["reference semantics SmSem.tla is the meaning of the property (Appendix A of DESIGN.md)",
                        "irrational / out-of-guard cases ('fl') are judged by harness/specval.py, cross-checked by TLC on every exact case",
                        "IEEE-754 double arithmetic and libm of this platform"]
-    return rep.finish({"evaluations": n_points, "distinct_nontrivial": len(nontrivial),
-                       "traces_validated_against_impl": len(rows), "cases": len(rows), **counts,
+    extra = {}
+    if pid == "C14":
+        # the derivative clauses of C14 (never CoordinateMissing when the expression's variables are supplied, also when the
+        # differentiation variable is absent; Derivative accepts exactly the expressions with <= 1 variable): engine E-diff
+        import eng_diff
+        dcov = eng_diff.collect(rep, "C14", tier, seed)
+        extra = {"derivative_routes": {k: v for k, v in dcov.items() if k in ("queries", "cases", "ok", "fl", "drift")}}
+        n_points += dcov["evaluations"]
+        nontrivial |= {("diff", k) for k in range(dcov["distinct_nontrivial"])}
+        len_rows_extra = dcov["traces_validated_against_impl"]
+    else:
+        len_rows_extra = 0
+    return rep.finish({"evaluations": n_points, "distinct_nontrivial": len(nontrivial), **extra,
+                       "traces_validated_against_impl": len(rows) + len_rows_extra, "cases": len(rows), **counts,
                        "rule": "cases = (expression heap, list of points) enumerated from the bounded universes of harness/gen.py "
                                "(U2 over D1q, boundary universe, DAG-shared variants, seeded depth-3 random trees, bare-number entry, float points); "
                                "distinct = structurally distinct (tree, point, mode); non-trivial = tree has >= 2 nodes (C02: also a raising or boundary case)"},
